@@ -93,6 +93,36 @@ STRENGTHENED = {
     "C19_r4_m1": "real eventlet: large file to a client that reads late (partial sends)",
     "C19_r4_m2": "real servers with --log-level warning / error",
     "C20_r4_m2": "Privs.tla capability dimension (uid-0 refused a privilege call), deviation SwallowEperm",
+    # round 5
+    "C01_r5_m1": "reject kinds (NUL / CR in a value, blank before the colon) in fields whose name has an underscore",
+    "C03_r5_m2": "line-level injection aimed at the master's once-a-second passes: a worker dies at every source line of murder_workers / manage_workers",
+    "C04_r5_m1": "real shutdowns with --reuse-port",
+    "C04_r5_m2": "stop signals during a slow application import (run_boot_stop)",
+    "C05_r5_m1": "clients that never read a multi-megabyte error page",
+    "C05_r5_m2": "more empty connections than connection slots",
+    "C06_r5_m1": "PROXY-protocol configurations in the segmentation loop",
+    "C06_r5_m2": "real-server segmentations of pipelined requests (keep-alive loop of the async workers)",
+    "C07_r5_m1": "small head limits with a long pipelined request behind the trailers",
+    "C07_r5_m2": "negative read sizes other than -1",
+    "C09_r5_m2": "forbidden bytes far into long header values",
+    "C10_r5_m2": "a raw_env line dropped at the last reload",
+    "C11_r5_m1": "scenario healthy_draining: a healthy worker draining after a reload for longer than --timeout",
+    "C12_r5_m1": "request line exactly at the limit (CRLF in a later read) counts as within",
+    "C12_r5_m2": "folded fields under permit_obsolete_folding (lines > fields)",
+    "C13_r5_m1": "applications that set a Connection header (simulated gthread worker)",
+    "C13_r5_m2": "real gthread worker with every connection slot taken for longer than --timeout",
+    "C14_r5_m1": "symlinked release deployments: the symlink is repointed and the old release removed before every USR2",
+    "C14_r5_m2": "history 14: documented back-out (WINCH, stop the new master, HUP), then the next upgrade",
+    "C15_r5_m2": "SCRIPT_NAME configured through raw_env and removed by a reload, on a real server",
+    "C16_r5_m1": "relative --chdir on the command line / in GUNICORN_CMD_ARGS with a file that sets chdir",
+    "C16_r5_m2": "ConfigMerge.tla: stand-in environment variables as a level below the default (fb / fbused, deviation FallbackFirst); loads compared under two values of the variable",
+    "C17_r5_m1": "the configured pid path is a symbolic link (stale target / dangling) at the kernel crash points",
+    "C17_r5_m2": "daemonised starts (good / failing after the detach) polled by a reader: clause PartialContentSeen",
+    "C18_r5_m1": "real mode bodiless: 304 answers on a keep-alive connection up to the limit",
+    "C18_r5_m2": "unix-socket binds through a recycling (gthread / eventlet)",
+    "C19_r5_m1": "access records collected through a handler on the root logger (logconfig_dict)",
+    "C20_r5_m1": "ids in the upper half of the 32-bit id space, as number and numeric string (renamed injectively for TLC)",
+    "C20_r5_m2": "timeout = 0 variants on the fake kernel and in real forked processes",
 }
 
 
